@@ -498,6 +498,32 @@ func runC01(r *Run) {
 			}
 			_, hit = reach(entryOf(f), is405, cut, nil)
 			r.check(len(cut) > 0 && hit == nil, fn+":405-needs-other-method", r.pos(loads[0]), "405 is unreachable with the methodExist-true edge removed", "405 is produced without another method matching")
+			// the `an endpoint matched` flag only ever goes up while the chain is scanned: a later middleware route that
+			// matches must not take it back (the 405 fallback would then answer for a path an endpoint did handle)
+			nset := 0
+			for _, b := range f.Blocks {
+				for _, in := range b.Instrs {
+					var val ssa.Value
+					if st, ok := in.(*ssa.Store); ok {
+						if fa, ok := st.Addr.(*ssa.FieldAddr); ok {
+							if fv := fieldVar(fa.X.Type(), fa.Field); fv != nil && fieldOwner(fv)+"."+fv.Name() == "DefaultCtx.matched" {
+								val = st.Val
+							}
+						}
+					}
+					if ci, ok := in.(ssa.CallInstruction); ok && strings.HasSuffix(calleeName(ci.Common()), "Ctx).setMatched") {
+						val = ci.Common().Args[len(ci.Common().Args)-1]
+					}
+					if val == nil {
+						continue
+					}
+					nset++
+					b, isC := constBool(asConst(val))
+					r.check(isC && b, fmt.Sprintf("%s:matched-only-set#%d", fn, nset), r.pos(in), "the flag is set to the constant true",
+						"the scanner assigns a computed value to the `endpoint matched` flag: a middleware route that matches after an endpoint clears it, and GET /res — handled by an endpoint that called Next — is answered 405 with the other methods' Allow list instead of 404")
+				}
+			}
+			r.atLeast(fn+" writes of the matched flag", nset, 1)
 		}
 	})
 
